@@ -1040,4 +1040,33 @@ Section Run.
       destruct (fold_left wm_event_h (ev1 ++ hev) (m, true)) as [m2 h2]. cbn [fst snd] in *. subst h2.
       exact (Hrest m2 o2 HW2 Hs).
   Qed.
+
+  (* ---- the initial state ------------------------------------------------------------------ *)
+  Lemma wi_init : WI (mkw (init c (st_init cmsg cap coupled)) [] None) wm0 o_init /\ NY (init (T := ST) c (st_init cmsg cap coupled)).
+  Proof.
+    assert (E : forall A (x : A) (i : nat), nth_error (@nil A) i = Some x -> False) by (intros A x [|i]; discriminate).
+    destruct (top_init (T := ST) c (st_init cmsg cap coupled)) as (HT & Hb).
+    split.
+    - constructor; cbn [w_s w_end].
+      + exact HT.
+      + exact Hb.
+      + exact (topH_init c (st_init cmsg cap coupled)).
+      + reflexivity.
+      + reflexivity.
+      + split; [reflexivity|split; [reflexivity|split; [reflexivity|]]]. intros k mi oi A. exfalso. exact (E _ _ _ A).
+      + intros k oi A. exfalso. exact (E _ _ _ A).
+      + constructor; cbn.
+        * intros k hr oi A. exfalso. exact (E _ _ _ A).
+        * constructor.
+        * intros mm [].
+      + intros k mi hr A. exfalso. exact (E _ _ _ A).
+      + apply PAcc_init.
+      + apply DA_init.
+      + apply QPm_init.
+      + constructor; cbn; auto. intros _. repeat split; reflexivity.
+      + cbn. discriminate.
+      + reflexivity.
+      + cbn. discriminate.
+    - intros j (hr & A & _). exact (E _ _ _ A).
+  Qed.
 End Run.
